@@ -83,7 +83,12 @@ class RecomputingDict(MutableMapping[RuleKey, AbstractStrategy]):
         if self._flatten(key) not in self.rules:
             raise KeyError(key)
         possible_labels = (key[0],) + key[1]
-        for label, strat in itertools.product(possible_labels, self.pack):
+        # A factory can yield a rule whose parent is not the class it was applied
+        # to, so as a last resort every other class is tried as well.
+        other_labels = (label for label in self.classdb if label not in possible_labels)
+        for label, strat in itertools.product(
+            itertools.chain(possible_labels, other_labels), self.pack
+        ):
             comb_class = self.classdb.get_class(label)
             if isinstance(strat, StrategyFactory):
                 strats_or_rules: Iterable[Union[AbstractRule, AbstractStrategy]] = (
